@@ -66,6 +66,24 @@ class ValueInit(Exception):
         super().__init__(str(n))
 
 
+class PlainMixin:
+    """an ordinary helper base class that is NOT an exception and happily accepts any constructor arguments."""
+
+    def __init__(self, *a):
+        self.mixin_args = a
+
+
+class MixErr(PlainMixin, ValueError):
+    """exception with a non-exception mixin FIRST in its MRO (class MixErr(SomeMixin, ValueError))."""
+
+
+def make_local_mixin():
+    class LocMix(PlainMixin, ValueError):
+        pass
+
+    return LocMix
+
+
 class FalsyErr(Exception):
     """an aggregate error with len(): with no sub-errors the instance is falsy (bool(exc) is False)."""
 
@@ -128,6 +146,15 @@ class BadReprExc(Exception):
         raise RuntimeError("no str")
 
 
+class BadReprSelf:
+    """repr() and str() raise an exception that carries the object itself - printing THAT exception fails again."""
+
+    def __repr__(self):
+        raise ValueError(self)
+
+    __str__ = __repr__
+
+
 class StrSub(str):
     pass
 
@@ -142,6 +169,7 @@ SPECIAL = {
     "lock": lambda: threading.Lock(),
     "generator": lambda: (i for i in range(2)),
     "badrepr": lambda: BadRepr(),
+    "badrepr_self": lambda: BadReprSelf(),
     "nan": lambda: float("nan"),
     "inf": lambda: float("-inf"),
     "tuple": lambda: (1, (2, 3)),
